@@ -13,8 +13,10 @@ import (
 	"strings"
 	"time"
 
+	"github.com/protobom/protobom/pkg/reader"
 	"github.com/protobom/protobom/pkg/sbom"
 	"github.com/protobom/protobom/pkg/storage"
+	"github.com/protobom/protobom/pkg/writer"
 	"verifharness/proj"
 )
 
@@ -335,7 +337,15 @@ func storeChild(args []string) error {
 			case "Store":
 				doc := proj.ToDoc(obj(ev, "doc"))
 				nc, _ := ev["nc"].(bool)
-				if err := backend.Store(doc, &storage.StoreOptions{NoClobber: nc}); err != nil {
+				// odd steps go through the writer's Store API with the backend installed, even steps call the backend directly
+				var err error
+				if i%2 == 1 && doc != nil {
+					ev["via"] = "writer"
+					err = writer.New(writer.WithStoreRetriever(backend)).StoreWithOptions(doc, &writer.Options{StoreOptions: &storage.StoreOptions{NoClobber: nc}})
+				} else {
+					err = backend.Store(doc, &storage.StoreOptions{NoClobber: nc})
+				}
+				if err != nil {
 					res["kind"], res["text"] = "err", err.Error()
 				} else {
 					// remember which file belongs to this id (diff of the listing)
@@ -347,7 +357,14 @@ func storeChild(args []string) error {
 					}
 				}
 			case "Retrieve":
-				doc, err := backend.Retrieve(str(ev, "id"), nil)
+				var doc *sbom.Document
+				var err error
+				if i%2 == 1 {
+					ev["via"] = "reader"
+					doc, err = reader.New(reader.WithStoreRetriever(backend)).Retrieve(str(ev, "id"))
+				} else {
+					doc, err = backend.Retrieve(str(ev, "id"), nil)
+				}
 				switch {
 				case err != nil && doc != nil:
 					res["kind"] = "both"
